@@ -163,6 +163,9 @@ func shiftSpace[T any](r *Run, d *Driver[T], name string, inputs [][]byte, cfgs 
 				}
 			}
 			for _, k := range ks {
+				if k < 1 || k+len(in) > 65535 {
+					continue
+				}
 				var vs []*Violation
 				if k <= 300 {
 					vs = evalShift(d, cfg, in, base, k, jk, nil)
@@ -237,6 +240,23 @@ func checkC11(r *Run) {
 	}
 	for _, h := range []sipsp.HdrT{sipsp.HdrFrom, sipsp.HdrContact, sipsp.HdrPAI, sipsp.HdrRoute} {
 		shiftSpace(r, nameAddrDrv, "name-addr/"+h.String(), sub(nameAddrSpaces(r)[:1]), []Cfg{{HdrType: int(h), HdrCap: -1, ValCap: -1}}, every)
+	}
+	// generated value forms (not strided): display x addr-spec / name-addr x white space before the parameters x
+	// parameter layouts x what follows
+	var forms [][]byte
+	for _, disp := range []string{"", "Bob ", "\"B\" ", " ", "\r\n "} {
+		for _, uri := range []string{"sip:a@b", "<sip:a@b>", "sip:h", "<sip:a@b;x=1>", "tel:1"} {
+			for _, ws := range []string{"", " ", "\t", " \r\n "} {
+				for _, par := range []string{"", ";tag=1", ";lr", "; tag = 1", ";x;tag=z;y=2", ";expires=5;q=0.5", ";"} {
+					for _, end := range []string{"\r\nX", " , <sip:c@d>\r\nX", "\r\n", ""} {
+						forms = append(forms, []byte(disp+uri+ws+par+end))
+					}
+				}
+			}
+		}
+	}
+	for _, h := range []sipsp.HdrT{sipsp.HdrFrom, sipsp.HdrTo, sipsp.HdrContact, sipsp.HdrPAI, sipsp.HdrRoute} {
+		shiftSpace(r, nameAddrDrv, "name-addr/forms/"+h.String(), forms, []Cfg{{HdrType: int(h), HdrCap: -1, ValCap: -1}}, every)
 	}
 	shiftSpace(r, nameAddrDrv, "name-addr/frags", sub(nameAddrSpaces(r)[6:7]), []Cfg{{HdrType: int(sipsp.HdrContact), HdrCap: -1, ValCap: -1}}, every)
 	var tcf []Cfg
